@@ -867,3 +867,169 @@ func runC06Calls(t fataler, c c06Case) string {
 	}
 	return postCloseChecks(e, conn, true)
 }
+
+// TestC06TwoClosers: Close is documented as safe for concurrent use. A second Close that
+// arrives while the first one is still WRITING its Close frame (the peer takes no bytes for a
+// while) must not cut that frame off: once the window opens the wire carries the first call's
+// Close frame with exactly its code and reason, the peer echoes it, and the first call returns
+// nil. Enumerated: role x held-up time x what the second call is x how much of the frame had
+// left when it arrived.
+func TestC06TwoClosers(t *testing.T) {
+	rec := evid.For("C06")
+	type tcCase struct {
+		Client bool
+		Hold   time.Duration
+		Second string // close-same | close-other
+		Budget int64
+	}
+	for _, client := range []bool{false, true} {
+		for _, hold := range []time.Duration{300 * time.Millisecond, 2 * time.Second, 4 * time.Second} {
+			for _, second := range []string{"close-same", "close-other"} {
+				for _, budget := range []int64{0, 1, 3} {
+					c := tcCase{client, hold, second, budget}
+					var msg string
+					synctest.Test(t, func(t *testing.T) {
+						e := newEnv(t)
+						defer e.Teardown()
+						lc, err := e.open(connSpec{Client: client})
+						if err != nil {
+							msg = "handshake: " + err.Error()
+							return
+						}
+						p := lc.Peer
+						p.onFrame = func(f ref.Frame) {
+							if f.Opcode == ref.OpClose {
+								p.send(ref.Frame{Fin: true, Opcode: ref.OpClose, Payload: f.Payload})
+							}
+						}
+						p.start(e)
+						lc.End.SetInBudget(budget)
+						reason := "first closer's reason"
+						var err1, err2 error
+						d1 := e.Call(func() { err1 = lc.C.Close(3210, reason) })
+						synctest.Wait() // the first Close is blocked writing its frame
+						e.sleep(hold / 2)
+						d2 := e.Call(func() {
+							if second == "close-same" {
+								err2 = lc.C.Close(3210, reason)
+							} else {
+								err2 = lc.C.Close(websocket.StatusGoingAway, "second closer")
+							}
+						})
+						e.sleep(hold / 2)
+						lc.End.SetInBudget(-1)
+						if !within(d1, 30*time.Second) || !within(d2, 30*time.Second) {
+							msg = "the Close calls did not return within 30 s"
+							return
+						}
+						p.waitEOF(30 * time.Second)
+						out, _ := p.snapshot()
+						var closes [][]byte
+						for _, f := range out {
+							if f.Opcode == ref.OpClose {
+								closes = append(closes, f.Payload)
+							}
+						}
+						want := ref.ClosePayload(3210, reason)
+						if len(closes) == 0 {
+							msg = fmt.Sprintf("no Close frame reached the peer although it took bytes again after %v (well within the 5 s Close allows for writing it): the connection was torn down under the first Close (err1=%v err2=%v)", hold, err1, err2)
+							return
+						}
+						if !bytes.Equal(closes[0], want) {
+							msg = fmt.Sprintf("the first Close frame on the wire carries %x, the first Close call asked for code 3210 reason %q", closes[0], reason)
+							return
+						}
+						if err1 != nil {
+							msg = fmt.Sprintf("the peer echoed the first caller's code, but its Close returned %v", err1)
+						}
+					})
+					rec.Case(true, fmt.Sprintf("twoclosers|%+v", c), "second-Close-while-the-first-is-writing-its-frame")
+					if msg != "" {
+						failCase(t, "C06", c, "%s", msg)
+					}
+				}
+			}
+		}
+	}
+}
+
+// TestC06CloseBesideReader: Close from one goroutine while another goroutine is in the middle of
+// reading a message whose frame has only partly arrived. While Close waits for the reader to let
+// go of the stream, the rest of that frame arrives and the reader takes it; then the peer echoes.
+// "Close returns nil when the peer echoes the code" - however the stream position moved while
+// Close was waiting. Enumerated: role x frame size x how much had arrived x read buffer x whether
+// a further message follows before the echo.
+func TestC06CloseBesideReader(t *testing.T) {
+	rec := evid.For("C06")
+	type cbCase struct {
+		Client  bool
+		Size    int
+		Arrived int
+		Buf     int
+		Extra   bool
+	}
+	for _, client := range []bool{false, true} {
+		for _, size := range []int{200, 5000} {
+			for _, arrivedPct := range []int{0, 50, 99} {
+				for _, buf := range []int{1, 64, 8192} {
+					for _, extra := range []bool{false, true} {
+						c := cbCase{client, size, size * arrivedPct / 100, buf, extra}
+						var msg string
+						synctest.Test(t, func(t *testing.T) {
+							e := newEnv(t)
+							defer e.Teardown()
+							lc, err := e.open(connSpec{Client: client})
+							if err != nil {
+								msg = "handshake: " + err.Error()
+								return
+							}
+							p := lc.Peer
+							p.start(e)
+							body := expand(ckText, 5, size)
+							_, wire, _ := finishMasking([]ref.Frame{{Fin: true, Opcode: ref.OpBinary, Payload: body}}, client)
+							hdr := len(wire) - size
+							p.sendRaw(wire[:hdr+c.Arrived])
+							e.Go(func() {
+								ctx := context.Background()
+								for {
+									_, r, err := lc.C.Reader(ctx)
+									if err != nil {
+										return
+									}
+									b := make([]byte, buf)
+									for {
+										if _, err := r.Read(b); err != nil {
+											break
+										}
+									}
+								}
+							})
+							synctest.Wait() // the reader is blocked in the middle of the frame
+							var cerr error
+							d := e.Call(func() { cerr = lc.C.Close(websocket.StatusNormalClosure, "done") })
+							synctest.Wait() // Close has written its frame and waits for the reader
+							e.sleep(100 * time.Millisecond)
+							p.sendRaw(wire[hdr+c.Arrived:])
+							if extra {
+								p.send(ref.Frame{Fin: true, Opcode: ref.OpText, Payload: []byte("one more message that was already on its way")})
+							}
+							e.sleep(100 * time.Millisecond)
+							p.send(ref.Frame{Fin: true, Opcode: ref.OpClose, Payload: ref.ClosePayload(1000, "done")})
+							if !within(d, 30*time.Second) {
+								msg = "Close did not return within 30 s"
+								return
+							}
+							if cerr != nil {
+								msg = fmt.Sprintf("the peer echoed the Close frame (code 1000) 200 ms after the rest of a partly received frame, but Close returned: %v", cerr)
+							}
+						})
+						rec.Case(true, fmt.Sprintf("closebesidereader|%+v", c), "Close-while-another-goroutine-reads-a-partly-received-frame")
+						if msg != "" {
+							failCase(t, "C06", c, "%s", msg)
+						}
+					}
+				}
+			}
+		}
+	}
+}
